@@ -51,7 +51,7 @@ def judge_with(binpath):
 def cases_for(run):
     rng = run.rng
     cases = []
-    n = 160 if run.tier == "quick" else 4000
+    n = 160 if run.tier == "quick" else 1500
     for i in range(n):
         prog = S.gen_prog(rng, allow_all=(i % 3 == 0), allow_self=False)
         prog["negs"] = []
@@ -77,7 +77,7 @@ def window_cases(run, binpath):
     """Engine programs with partitioned windows/aggregates: outputs of the whole stream vs union of per-key replays.
     x = 2^id so that sums identify exactly which events an output aggregates."""
     rng = run.rng
-    n = 10 if run.tier == "quick" else 120
+    n = 10 if run.tier == "quick" else 40
     fails = 0
     for name, src in WINDOW_PROGRAMS:
         for _ in range(n):
